@@ -1,4 +1,5 @@
 import RactorModel.Lemmas.PgSpec
+import RactorModel.Lemmas.PgFine
 
 /-!
 # C11 — process groups reflect live membership and tell their monitors
@@ -227,7 +228,53 @@ theorem notification_count (ops : List Op) (isJoin : Bool) (s g : Nat) (as : Lis
   simp only [List.map_append, List.filter_append, List.length_append]
   rw [key _ (h.ndL _), key _ (h.ndW _), key _ (h.ndW _)]
 
+/-! ### The join-vs-exit race, lock step (fine-grained model `Pg.Fine`) -/
+
+/-- **Published-before-drain.** Start from any state the API can reach. Let actor `a`'s exit run
+region by region (`mark` = publish `Stopping`; `demonitor_all`: drain, one entry per step; `leave_all`:
+drain, one entry per step, finish) in any order of the drained keys, and let the environment run,
+between any two of these regions and in any number, any public pg call at its locked region —
+`join`/`monitor`/`monitor_scope` naming `a` included —, the post-lock clean-up regions of
+`monitor*`/`join_scoped`, and whole exits of other actors. Then, for EVERY such schedule: once the
+exit has finished, `a` is a member of no group and a listener of none (no zombie), `a` is marked
+stopping, and this stays true for every continuation of the schedule. -/
+theorem exit_race_no_zombie (ops : List Op) (a : Nat) (sched : List Fine.FOp) :
+    let fs := Fine.frun a ⟨run init ops, .live⟩ sched
+    fs.ph = .done →
+      (∀ k, a ∉ membersOf fs.st k) ∧ (∀ k, a ∉ listenersOf fs.st k) ∧ (∀ s, a ∉ worldOf fs.st s) ∧
+      a ∈ fs.st.dead := by
+  intro fs hdone
+  have h : Fine.ZInv a fs := Fine.zinv_frun sched (Fine.zinv_of_inv (inv_run inv_init ops) a)
+  unfold Fine.ZInv at h
+  rw [hdone] at h
+  exact ⟨h.2.1, h.2.2.1, h.2.2.2, h.1⟩
+
+/-- `done` is absorbing: no later step of anybody reopens the exit -/
+theorem exit_done_stable (a : Nat) (fs : Fine.FState) (op : Fine.FOp) (h : fs.ph = .done) :
+    (Fine.fstep a fs op).ph = .done := by
+  obtain ⟨st, ph⟩ := fs
+  subst h
+  cases op <;> simp only [Fine.fstep] <;> first | rfl | (split <;> rfl)
+
+/-- while the exit is in flight a join naming the exiter is rejected from the moment `Stopping`
+is published: in every phase after `live` no environment step makes `a` a member of anything it
+was not a member of before -/
+theorem exit_race_no_late_join (a : Nat) (st : State) (op : Op) (hop : op ≠ .exit a) (hd : a ∈ st.dead)
+    (k : Key) (h : a ∈ membersOf (step st op).1 k) : a ∈ membersOf st k :=
+  (Fine.envOK_api a st op hop).shrinkM hd k h
+
 /-! ### Non-vacuity -/
+
+/-- an exit of actor 0 (member of (1,0), monitor of (1,0) and of all scopes) racing a join that
+names it (rejected after `mark`), a leave, a monitor registration with its clean-up region: the
+exit reaches `done` and nothing of actor 0 is left -/
+example :
+    let st0 := run init [.join 1 0 [0, 1], .monitor 0 0, .monitorScope 0 0]
+    let fs := Fine.frun 0 ⟨st0, .live⟩
+      [.mark, .api (.join 1 1 [0, 2]), .demTake, .api (.monitor 1 0), .demKey (1, 0), .monRecheck 1 0,
+       .demWKey 0, .demDone, .api (.leave 1 0 [1]), .take, .lvKey (1, 0), .finish, .api (.join 1 0 [0])]
+    fs.ph = .done ∧ getMembers fs.st 1 0 = [] ∧ getMembers fs.st 1 1 = [2] ∧ fs.st.rel.map (·.1) = [2, 1] ∧
+    fs.st.dead = [0] ∧ ok fs.st = true := by decide
 
 /-- actors 1,2 join (1,0) twice with a duplicate; 9 monitors the group, 8 the scope, 7 everything;
 3 leaves though it never joined; 1 exits -/
@@ -265,3 +312,6 @@ end C11
 #print axioms C11.exit_notifications
 #print axioms C11.monitor_ops_silent
 #print axioms C11.notification_count
+#print axioms C11.exit_race_no_zombie
+#print axioms C11.exit_done_stable
+#print axioms C11.exit_race_no_late_join
